@@ -62,10 +62,16 @@ RefPagePaths(gr) == LET w == RefWalk(gr) IN Pick(w, {i \in 1..Len(w) : gr[Last(w
 Nearest(gr, path, a) ==
   LET def == {i \in 1..Len(path) : a \in gr[path[i]].own}
   IN IF def = {} THEN NONE ELSE path[MaxOf(def)]
+\* an entry that is not inheritable (Annots, ...) is the page's own or nothing
+OwnOnly(gr, path, a) == IF a \in gr[Last(path)].own THEN Last(path) ELSE NONE
 
-RefPages(gr, attrs) ==
+\* (inh: the inheritable kinds among attrs; lab: the page label a page carries is the label of its zero-based
+\* index in document order, ISO 32000-1 12.4.2)
+RefPages(gr, attrs, inh) ==
   LET pp == RefPagePaths(gr)
-  IN [i \in 1..Len(pp) |-> [node |-> Last(pp[i]), props |-> [a \in attrs |-> Nearest(gr, pp[i], a)]]]
+  IN [i \in 1..Len(pp) |-> [node |-> Last(pp[i]),
+                             props |-> [a \in attrs |-> IF a \in inh THEN Nearest(gr, pp[i], a) ELSE OwnOnly(gr, pp[i], a)],
+                             lab |-> i - 1]]
 
 \* page selection: zero-based indices that are selected (an empty page_numbers selects all) and below the limit
 \* (maxpages = 0: no limit), in order
@@ -78,7 +84,8 @@ RefSelect(np, pagenos, maxpages) ==
 (* PageTree.tla and the trace specification PageTreeTrace.tla.             *)
 (***************************************************************************)
 \* the inheritance copy:  for k, v in parent.items(): if k inheritable and k not in object_properties: copy
-Inherit(t, own, pp, attrs) == [a \in attrs |-> IF a \in own THEN t ELSE pp[a]]
+\* (inh = PDFPage.INHERITABLE_ATTRS among the kinds in play)
+Inherit(t, own, pp, attrs, inh) == [a \in attrs |-> IF a \in own THEN t ELSE IF a \in inh THEN pp[a] ELSE NONE]
 
 \* `if pagenos and (pageno not in pagenos): continue`
 Skipped(pagenos, pageno) == pagenos # {} /\ pageno \notin pagenos
